@@ -23,9 +23,21 @@ def ens(name):
     return name.split('|')[0]
 
 
+_DICTS = {}
+
+
 def _cfg_dict(chain):
+    """{cfg: fluctuation} of a snapshot chain (memoised per chain object: a list of n observables needs it n^2 times)"""
+    key = id(chain[1])
+    hit = _DICTS.get(key)
+    if hit is not None and hit[0] is chain[1]:
+        return hit[1]
     idl, d, _ = chain
-    return {int(c): float(v) for c, v in zip(idl, d)}
+    out = {int(c): float(v) for c, v in zip(idl, d)}
+    if len(_DICTS) > 4000:
+        _DICTS.clear()
+    _DICTS[key] = (chain[1], out)
+    return out
 
 
 def pearson_common(da, db):
